@@ -323,25 +323,33 @@ func (p *Parser) ParseArgs(args []string) ([]string, error) {
 	}
 
 	var reterr error
+	var executed bool
 
 	if s.err != nil {
 		reterr = s.err
 	} else if len(s.command.commands) != 0 && !s.command.SubcommandsOptional {
 		reterr = s.estimateCommand()
 	} else if cmd, ok := s.command.data.(Commander); ok {
+		executed = true
+
 		if p.CommandHandler != nil {
 			reterr = p.CommandHandler(cmd, s.retargs)
 		} else {
 			reterr = cmd.Execute(s.retargs)
 		}
 	} else if p.CommandHandler != nil {
+		executed = true
 		reterr = p.CommandHandler(nil, s.retargs)
 	}
 
 	if reterr != nil {
 		var retargs []string
 
-		if ourErr, ok := reterr.(*Error); !ok || ourErr.Type != ErrHelp {
+		if executed {
+			// Parsing succeeded and the error comes from the command: return
+			// the same remaining arguments the command was given.
+			retargs = s.retargs
+		} else if ourErr, ok := reterr.(*Error); !ok || ourErr.Type != ErrHelp {
 			retargs = append([]string{s.arg}, s.args...)
 		} else {
 			retargs = s.args
